@@ -6,9 +6,10 @@ import os
 from . import tree
 
 KEY_EXPRS = ["name", "ext", "path", "size", "uid", "hardlinks", "modified", "length(name)", "size + 1", "size % 7",
-             "size - 1000", "gid", "mode", "dir", "size * 2", "inode"]
+             "size - 1000", "gid", "mode", "dir", "size * 2", "inode", "year(modified)", "month(modified)", "day(modified)",
+             "length(ext)", "lower(name)", "upper(ext)", "abs(size - 100)"]
 NUMERIC = {"size", "uid", "gid", "hardlinks", "inode", "blocks", "length(name)", "size + 1", "size % 7", "size - 1000",
-           "size * 2", "line_count"}
+           "size * 2", "line_count", "year(modified)", "month(modified)", "day(modified)", "length(ext)", "abs(size - 100)"}
 DATES = {"modified"}
 
 
@@ -40,7 +41,7 @@ def order_tree(rng, root, n_files=None, extra=0):
             continue
         used.add(p)
         nodes.append({"path": p, "kind": "file", "size": rng.choice(sizes),
-                      "mtime": base + rng.choice([0, 1, 2, 3, 60, 61, 3600, 86400, 86401, 10 * 86400]),
+                      "mtime": base + rng.choice([0, 1, 2, 3, 60, 61, 3600, 86400, 86401, 10 * 86400, 40 * 86400, 300 * 86400, -200 * 86400, 800 * 86400]),
                       "owner": (rng.choice([0, 1, 2, 10, 100]), rng.choice([0, 5, 50])),
                       "mode": rng.choice([0o644, 0o600, 0o755])})
     for i in range(extra):
